@@ -1,8 +1,58 @@
-(* Properties/C04.v — Joint weights are exact above threshold, normalised, and unbiased in the tail. *)
+(* Properties/C04.v — Joint weights are exact above threshold, normalised, and unbiased in the tail.
+   Only statements (closed by `exact`), non-vacuity examples, facts obligation, Print Assumptions.
+
+   Vocabulary (Model/Weights.v):
+     probs : list (list Q)      one probability vector per basis (QPDBasis.probabilities)
+     perms : list (list nat)    what np.argsort(cp)[::-1] returned for each vector; the theorems hold for EVERY
+                                family of sorting permutations (sorting_perms_b = true), i.e. for any tie order
+     N : num                    Fin q | PInf | NInf | NaN   (the float num_samples)
+     tape                       the answers of numpy.random.choice, in call order
+     gen_weights probs perms N tape : option (res wdict)     None = tape inadmissible (too short / an index of
+                                probability zero: excluded by the oracle contract O-choice)
+     jointp probs ids           product of probs[k][ids[k]]
+   The model contains the REPAIRED behaviour of finding F9 (samples_needed < 1 returns the exact weights). *)
 From Coq Require Import QArith.
-From CKT Require Import Common.Base Extracted.Facts Model.Weights Proofs.WeightsP.
+From CKT Require Import Common.Base Extracted.Facts Model.Weights.
+From CKT Require Import Proofs.WeightsP Proofs.WeightsDfs Proofs.WeightsGen Proofs.WeightsTab.
 Open Scope Q_scope.
 
+(* valid probs: every vector is non-negative and sums to 1 (WeightsGen.valid) *)
+
+(* every joint map with probability >= 1/N gets weight N*p, marked EXACT.
+   The hypothesis atol*N <= 1 (N <= 1e14) is needed: beyond it the all-exact branch drops maps with p < atol. *)
+Theorem c04_exact_complete : forall probs perms q tape r ids,
+  valid probs -> sorting_perms_b probs perms = true -> nonzero_atol * q <= 1 ->
+  gen_weights probs perms (Fin q) tape = Some (Ok r) ->
+  in_range probs ids -> 1 / q <= jointp probs ids ->
+  exists w, dget r ids = Some (w, EXACT) /\ w == q * jointp probs ids.
+Proof. exact exact_complete. Qed.
+
+(* no entry of the result (exact, leftover or sampled; finite or infinite budget) has probability zero,
+   and every key is a joint map *)
+Theorem c04_no_zero : forall probs perms N tape r ids w t,
+  Forall nonneg probs -> sorting_perms_b probs perms = true ->
+  gen_weights probs perms N tape = Some (Ok r) -> dget r ids = Some (w, t) ->
+  0 < jointp probs ids /\ in_range probs ids.
+Proof. exact no_zero. Qed.
+
+(* infinite budget: exactly the joint maps with probability >= atol (the code skips `probability < atol`),
+   each with its probability (multiplier 1.0), all EXACT; no sampling whatever the tape *)
+Theorem c04_infinite : forall probs perms tape,
+  Forall nonneg probs -> Forall (fun v => exists x, In x v /\ nonzero_atol < x) probs ->
+  exists r, gen_weights probs perms PInf tape = Some (Ok r) /\
+    forall ids,
+      (idx_ok probs ids /\ length ids = length probs /\ nonzero_atol <= jointp probs ids ->
+         dget r ids = Some (1 * jointp probs ids, EXACT)) /\
+      (forall w t, dget r ids = Some (w, t) ->
+         idx_ok probs ids /\ length ids = length probs /\ nonzero_atol <= jointp probs ids /\
+         t = EXACT /\ w = 1 * jointp probs ids).
+Proof.
+  intros probs perms tape N B. exists (all_exact probs 1). split.
+  - now apply infinite_budget.
+  - intros ids. apply all_exact_spec.
+Qed.
+
+(* NaN, -inf and every finite budget below 1 are refused, whatever else is passed *)
 Theorem c04_refuses : forall probs perms tape N,
   (N = NaN \/ N = NInf \/ exists q, N = Fin q /\ q < 1) -> gen_weights probs perms N tape = Some Refused.
 Proof. exact gen_refuses. Qed.
@@ -11,5 +61,45 @@ Proof. exact gen_refuses. Qed.
 Theorem c04_facts : nonzero_atol == 1 / 100000000000000 /\ isclose0 nonzero_atol = true.
 Proof. split; reflexivity. Qed.
 
+(* ---------- non-vacuity ---------- *)
+Definition exP : list (list Q) := [[1#2; 1#4; 1#4]; [1#4; 3#4]].
+Definition exPerms : list (list nat) := [[0; 2; 1]; [1; 0]]%nat.          (* a tie broken "the other way" *)
+
+Example c04_ex_hyps : Forall nonneg exP /\ sorting_perms_b exP exPerms = true /\ nonzero_atol * 4 <= 1 /\
+                      in_range exP [0; 1]%nat /\ 1 / 4 <= jointp exP [0; 1]%nat.
+Proof.
+  repeat split; try (repeat constructor; discriminate); try reflexivity; try discriminate.
+  intros [|[|k]]; simpl; lia.
+Qed.
+
+Example c04_ex_valid : valid exP.
+Proof. repeat constructor; try discriminate; reflexivity. Qed.
+
+(* one exact weight (4 * 3/8), three samples of weight (4 * 5/8)/3 drawn through the conditional tables *)
+Example c04_ex_run :
+  gen_weights exP exPerms (Fin 4) [1; 0; 1; 1; 0; 0]%nat =
+  Some (Ok [([0; 1], (12 # 8, EXACT)); ([1; 1], (320 # 384, SAMPLED));
+            ([1; 0], (320 # 384, SAMPLED)); ([0; 0], (320 # 384, SAMPLED))]%nat).
+Proof. vm_compute. reflexivity. Qed.
+
+(* the oracle contract is used: an answer of probability zero makes the tape inadmissible *)
+Example c04_ex_inadmissible : gen_weights exP exPerms (Fin 4) [1; 0; 1; 1; 0; 1]%nat = None.
+Proof. vm_compute. reflexivity. Qed.
+
+Example c04_ex_infinite : exists r, gen_weights exP exPerms PInf [] = Some (Ok r) /\ length r = 6%nat.
+Proof. eexists. split; [vm_compute; reflexivity|reflexivity]. Qed.
+
+(* the bound atol*N <= 1 of c04_exact_complete cannot be dropped: with N = 10^17 the map (1,1,1,1) of four
+   bases [1-1e-4, 1e-4] has p = 1e-16 >= 1/N, all-exact branch, and is skipped because p < atol *)
+Definition exTiny : list (list Q) := repeat [9999 # 10000; 1 # 10000] 4.
+Example c04_ex_bound_needed :
+  exists r, gen_weights exTiny (repeat [0; 1]%nat 4) (Fin (100000000000000000 # 1)) [] = Some (Ok r) /\
+            dget r [1; 1; 1; 1]%nat = None /\
+            Qle_bool (1 / (100000000000000000 # 1)) (jointp exTiny [1; 1; 1; 1]%nat) = true.
+Proof. eexists. split; [vm_compute; reflexivity|split; vm_compute; reflexivity]. Qed.
+
+Print Assumptions c04_exact_complete.
+Print Assumptions c04_no_zero.
+Print Assumptions c04_infinite.
 Print Assumptions c04_refuses.
 Print Assumptions c04_facts.
